@@ -100,7 +100,9 @@ func (s *Store) Append(ctx context.Context, event *eventbus.Event) (eventbus.Off
 		Data: event.Data,
 	}
 	if !event.Timestamp.IsZero() {
-		writeEvent.Timestamp = event.Timestamp.Format(time.RFC3339Nano)
+		// RFC 3339 offsets have no seconds, so a zone such as -00:44:30 would
+		// shift the instant; UTC always round-trips
+		writeEvent.Timestamp = event.Timestamp.UTC().Format(time.RFC3339Nano)
 	}
 
 	if err := writer.SendJSON(writeEvent, nil); err != nil {
